@@ -66,8 +66,8 @@ ASSUMPTIONS = [
     "a handler name resolves to the nearest class in type(e).__mro__ that carries _ufl_handler_name_ and for which the "
     "algorithm class (or its UFL base class) defines an attribute; non-UFL mixin classes in the MRO define no handler",
 ]
-BUDGET = {"quick": 60, "thorough": 400}
-NCASES = {"quick": 3200, "thorough": 32000}
+BUDGET = {"quick": 75, "thorough": 420}
+NCASES = {"quick": 1280, "thorough": 24000}
 EVAL_COUNTER = "events_judged"
 FLOORS = {
     "quick": {
@@ -1017,6 +1017,7 @@ def case(ctx, i, rng):
     for op in W.ops_used:
         ctx.covered("sharing_steps", op)
     ctx.count("workload_steps_rejected", W.rejected)
+    ctx.count("generator_pieces_discarded_because_cyclic_abs_abs", W.cyclic_pieces)
     ctx.count("eq_comparisons_before_traversal", len(W.eq_results))
     ctx.count("eq_comparisons_true", sum(W.eq_results))
 
@@ -1052,7 +1053,9 @@ def case(ctx, i, rng):
     if ctx.time_left() < 0:
         return
     chk_maps(K, e, e2, tree, coefmap)
-    chk_multifunction(K, e, e2, tree, nodes, _ZOO)
+    # the zoo (one instance of every constructible class) is dispatched live by one algorithm family per case
+    z = [_ZOO if i % 3 == k else [] for k in range(3)]
+    chk_multifunction(K, e, e2, tree, nodes, z[0])
     chk_reuse_multifunction(K, e, tree, coefmap)
-    chk_transformer(K, e, tree, nodes, _ZOO, coefmap)
-    chk_dagtraverser(K, e, e2, tree, nodes, _ZOO, coefmap)
+    chk_transformer(K, e, tree, nodes, z[1], coefmap)
+    chk_dagtraverser(K, e, e2, tree, nodes, z[2], coefmap)
